@@ -35,7 +35,8 @@ class K:
     kind = "kani"
 
     def __init__(self, crate, harness, tiers=("quick", "thorough"), timeout=900, mem_gb=10, cut=(), bounds="",
-                 unwind=None, expect="pass", what="", stubs_note=""):
+                 unwind=None, expect="pass", what="", stubs_note="", replace=()):
+        self.replace = tuple(replace)
         self.crate, self.harness, self.tiers = crate, harness, tiers
         self.timeout, self.mem_gb, self.cut, self.bounds = timeout, mem_gb, tuple(cut), bounds
         self.unwind = unwind
@@ -108,8 +109,11 @@ def run_kani_obligation(ob, meta, workroot, budget, keep):
            "stubs": meta.get("stubs", []), "cut": [], "workdir": wd}
     got = budget.acquire(ob.mem_gb)
     try:
-        goto, removed = kplus.prepare(meta, wd, log, cut_regexes=ob.cut)
+        goto, removed = kplus.prepare(meta, wd, log, cut_regexes=ob.cut, replace=ob.replace)
         res["cut"] = removed
+        res["replaced"] = meta.get("_replaced", [])
+        if ob.replace and len(res["replaced"]) == 0:
+            raise Inconclusive("goto-level stubs requested but no call was redirected (callee names changed?)")
         res["goto"] = goto
         results, status, wall = kplus.cbmc(goto, res["unwind"], ob.timeout, ob.mem_gb * 1024 * 1024, log)
         res["solver_s"] = wall
@@ -396,7 +400,7 @@ def write_evidence_file(prop, tier, seed, spec, results, known_hits, violations,
                         "unwind": r.get("unwind"), "solver_checked_conditions": r.get("checks", 0),
                         "cover_witnesses_satisfied": sorted(d for d, s in r.get("covers", {}).items() if s),
                         "solver_s": round(r.get("solver_s", 0), 2), "goto_level_cut": r.get("cut", [])[:20],
-                        "stubs": r.get("stubs", []), **({"detail": r["detail"]} if "detail" in r else {})})
+                        "stubs": r.get("stubs", []), "goto_level_stubs": r.get("replaced", []), **({"detail": r["detail"]} if "detail" in r else {})})
     funcs = sorted({f for r in results for f in r.get("functions", [])})
     ev = {
         "property_id": prop, "tier": tier, "seed": seed, "level": spec.get("level", "model_checking"),
